@@ -384,6 +384,9 @@ JudgeOut judge(const json &plan)
 					static const char *bad_targets[] = {"\"/t/nonexistent.conf\"", "\"/t/noperm.conf\"", "\"/t/adir\""};
 					faults.push_back({"include_target_cannot_be_opened", {{"key", "mut"}, {"value", json::array({ci, ti, bad_targets[(ci + ti + fp) % 3]})}}});
 				}
+				// '+=' where the option is not a list
+				if (role == "o" && ti > 0 && toks[ti - 1][2] == "n" && toks[ti - 1][3] == "scalar" && from_json_bytes(chunks[ci]["t"].get<std::string>()).substr(toks[ti][0].get<size_t>(), 1) == "=")
+					faults.push_back({"append_to_scalar", {{"key", "mut"}, {"value", json::array({ci, ti, "+="})}}});
 				if (role == "o")
 					faults.push_back({"wrong_punctuation", {{"key", "mut"}, {"value", json::array({ci, ti, ")"})}}});
 				if (role == "p")
